@@ -370,6 +370,61 @@ func C20(c *fw.Ctx) {
 			}
 		}
 	}
+	// containers that hold themselves: a line builds one (an array in itself, an object in itself, an array
+	// in an object in the array) and uses it in every operand position of every operator, as each argument of
+	// every built-in, as index, receiver, callee, condition, printed and echoed; the probe line that follows
+	// must be answered as in a fresh session
+	{
+		V := model.KwVar
+		builds := []string{
+			V + " x = [0]; x[0] = x; ",
+			V + " x = {k: 0}; x.k = x; ",
+			V + " x = [0]; " + V + " o = {a: x}; x[0] = o; ",
+		}
+		var uses []string
+		for _, op := range model.BinOps {
+			uses = append(uses, "x "+op+" 1;", "1 "+op+" x;", "x "+op+" x;")
+		}
+		for _, op := range []string{"-", "!", "~"} {
+			uses = append(uses, op+"x;")
+		}
+		for _, op := range []string{"&&", "||", model.KwAnd, model.KwOr} {
+			uses = append(uses, "x "+op+" 1;", "nil "+op+" x;")
+		}
+		for _, b := range model.Builtins {
+			if b == model.BiInput || b == model.BiInputLatin {
+				continue
+			}
+			uses = append(uses, b+"(x);", b+"(x, 0);", b+"(0, x);", b+"([1], x);", b+"({k: 1}, x);")
+		}
+		uses = append(uses, "x[x];", "[1][x];", "x.k.k;", "x();", model.KwIf+" (x) { 1; }", model.KwPrint+" x;", "x;", model.KwPrint+" \"t\" + x;", "x[0] = 1 / x;", "x.z = -x;")
+		probe := model.BiLen + "([1, 2]);"
+		for bi, b := range builds {
+			for _, u := range uses {
+				if !c.Mine() {
+					continue
+				}
+				session := b + u + "\n" + probe + "\n"
+				o := h.RunRepl(session, h.Opts{Fuel: 3_000_000})
+				c.Eval(session, true)
+				c.R.States++
+				c.R.Transitions++
+				base := fw.Replay{Mode: "repl", Program: session, CLI: true, InStdout: o.Stdout, InStderr: o.Stderr, InStatus: o.Status}
+				if abnormal(c, o, "repl", session, base) {
+					continue
+				}
+				parts, ok := splitPrompts(o.Stdout)
+				if !ok || len(parts) != 3 || parts[1] != "2\n" || parts[2] != "" || o.Status != 0 {
+					r := base
+					r.Sig = fmt.Sprintf("C20|session-ends-or-later-line-altered|after-self-containing-container|build%d", bi)
+					r.What = "after a line that uses a container holding itself the next line is not answered as in a fresh session"
+					r.Expected = "three prompts, the second line answered 2, status 0"
+					r.Observed = fmt.Sprintf("stdout %q status %d stderr %q", trunc(o.Stdout, 200), o.Status, trunc(o.Stderr, 200))
+					c.Violate(r)
+				}
+			}
+		}
+	}
 	// whatever characters a line holds, the session goes on: every sequence of up to three items of a
 	// lexical alphabet (every printable ASCII character; for length three the characters that begin or
 	// end a token class) as a line of its own, followed by the probe line, which must be answered as in a
